@@ -132,6 +132,17 @@ def run(ctx):
             want = min(max(rh, lo), hi)
             if any(v != want for v in out):
                 ctx.impl_violation("kernel-zero-variance", "zero deviation must give clip(round(target_mean))=%d, got %s" % (want, out), payload[i])
+        # direct oracle for the formula: each output is within rounding distance of the clipped exact affine image
+        # (exact rational arithmetic; double round-off in factor*(x-mean)+target_mean is far below the 1e-6 allowance)
+        if c["ds"] != 0 and math.isfinite(c["ds"]):
+            fq = Fraction(c["ts"]) / Fraction(c["ds"])
+            for x, v in zip(c["xs"], out):
+                y = fq * (Fraction(x) - Fraction(c["dm"])) + Fraction(c["tm"])
+                yc = min(max(y, Fraction(lo)), Fraction(hi))
+                if abs(Fraction(v) - yc) > Fraction(1, 2) + Fraction(1, 10 ** 6):
+                    ctx.impl_violation("kernel-formula", "quantize_real(x=%r; data mean %r, deviation %r; target %r, %r; %d bits) = %d, but target_std/data_std*(x-mean)+target_mean = %.6g (clipped %.6g)"
+                                       % (x, c["dm"], c["ds"], c["tm"], c["ts"], c["b"], v, float(y), float(yc)), payload[i])
+                    break
         if vals is not None:
             if list(vals[i]) != out:
                 ctx.mismatch("quantize_real: binary64 model %s, implementation %s" % (vals[i], out), payload[i])
